@@ -24,7 +24,7 @@ variables_per_sample / grid_variables / variables_per_trial are the documented s
 NOT_DECIDED = "the numeric offsets for a concrete design, excluded-level handling in factor_variables_for_trial, and window shifts of derivations (C01/C15)."
 
 R = "C14.layout"
-SIMPLE = "list(filter(lambda f: not(f.has_complex_window), self.act_design))"
+SIMPLE = "[_b0 for _b0 in self.act_design if not(_b0.has_complex_window)]"
 PREV = "self._get_previous_trials_variable_count(f, %s)"
 
 
@@ -57,7 +57,7 @@ def check(ctx):
     ctx.check(ok, R, f, "factor_variables_for_trial branch polarity", "complex stride under has_complex_window",
               "the strides of factor_variables_for_trial are attached to the wrong branches")
     r = F.returns()
-    ctx.check(len(r) == 1 and r[0].startswith("list(map(lambda n: 1 + n + offset, list(map(lambda l: self.first_variable_for_level(f, l), "),
+    ctx.check(len(r) == 1 and r[0].startswith("[1 + _b0 + offset for _b0 in [self.first_variable_for_level(f, _b0) for _b0 in "),
               R, f, "factor_variables_for_trial 1-based", "each level's first variable + offset + 1",
               "factor_variables_for_trial returns `%s`" % (r[0][:140] if r else r))
 
@@ -66,7 +66,7 @@ def check(ctx):
     fact(ctx, R, f, "first_variable_for_level returns", F.returns(),
          ["offset + self.grid_variables()", "get_all_levels(%s).index((factor, level))" % SIMPLE],
          "complex-window factors start at grid_variables(); grid levels are numbered by get_all_levels over the grid factors")
-    fact(ctx, R, f, "first_variable_for_level complex order", F.iters(), ["filter(lambda f: f.has_complex_window, self.act_design)"],
+    fact(ctx, R, f, "first_variable_for_level complex order", F.iters(), ["[_b0 for _b0 in self.act_design if _b0.has_complex_window]"],
          "complex-window factors are laid out in act_design order")
     fact(ctx, R, f, "first_variable_for_level complex offsets", F.augs("offset"),
          ["+= f.levels.index(level)", "+= self.variables_for_factor(f)"],
@@ -91,7 +91,7 @@ def check(ctx):
                     "get_all_levels([f])[(-1 - self.first_variable_for_level(f, f.levels[0]) + variable)%(len(f.levels))]"], R, f,
               "decode_variable returns", "grid: table lookup; complex: (index - factor start) mod len(f.levels) (the encoder's complex stride)",
               "decode_variable returns %s" % r)
-    fact(ctx, R, f, "decode_variable complex order", F.iters(), ["list(filter(lambda f: f.has_complex_window, self.act_design))"],
+    fact(ctx, R, f, "decode_variable complex order", F.iters(), ["[_b0 for _b0 in self.act_design if _b0.has_complex_window]"],
          "complex-window factors scanned in act_design order")
     ctx.check("(-1 + variable in range(self.first_variable_for_level(f, f.levels[0]), self.first_variable_for_level(f, f.levels[0]) + self.variables_for_factor(f)))" in t,
               R, f, "decode_variable complex range", "a complex factor owns [start, start + variables_for_factor(f))",
@@ -99,12 +99,12 @@ def check(ctx):
 
     f = ctx.fn("base:Gen.decode")
     F = Facts(f)
-    sol = "list(filter(lambda v: (0 < v), solution))"
+    sol = "[_b0 for _b0 in solution if (0 < _b0)]"
     fact(ctx, R, f, "Gen.decode positives", F.assigns("solution"), [sol], "only true variables are decoded")
     fact(ctx, R, f, "Gen.decode grid split", F.assigns("simple_variables"),
-         ["list(filter(lambda v: (v <= block.grid_variables()), %s))" % sol], "grid variables: v <= grid_variables() (1-based)")
+         ["[_b0 for _b0 in %s if (_b0 <= block.grid_variables())]" % sol], "grid variables: v <= grid_variables() (1-based)")
     fact(ctx, R, f, "Gen.decode complex split", F.assigns("complex_variables"),
-         ["list(filter(lambda v: (block.grid_variables() < v), %s))" % sol], "complex variables: v > grid_variables()")
+         ["[_b0 for _b0 in %s if (block.grid_variables() < _b0)]" % sol], "complex variables: v > grid_variables()")
     fact(ctx, R, f, "Gen.decode complex start", F.assigns("start"), ["1 + block.first_variable_for_level(f, f.levels[0])"],
          "a complex factor's 1-based start = first variable + 1")
     fact(ctx, R, f, "Gen.decode complex end", F.assigns("end"),
@@ -116,23 +116,23 @@ def check(ctx):
     ctx.check("range(block.trials_per_sample())" in F.iters(), R, f, "Gen.decode trials", "one entry per trial", "Gen.decode no longer emits one entry per trial")
     ctx.check(F.exprs()[:1] == ["solution.sort()"], R, f, "Gen.decode order", "variables decoded in ascending order (trial order)", "Gen.decode no longer sorts the solution")
     st = F.assigns("string_tuples")
-    ctx.check(len(st) == 1 and st[0].startswith("list(map(lambda t: (t[0].name, t[1].name), list(map(lambda v: block.decode_variable(v), "),
+    ctx.check(len(st) == 1 and st[0].startswith("[(_b0[0].name, _b0[1].name) for _b0 in [block.decode_variable(_b0) for _b0 in "),
               R, f, "Gen.decode names", "factor and level names come from decode_variable", "Gen.decode's name extraction changed")
 
     # ---------------------------------------------------------------- sizes
     f = ctx.fn("cross_block:MultiCrossBlockRepeat.variables_per_trial")
     F = Facts(f)
     fact(ctx, R, f, "variables_per_trial", F.assigns("self._variables_per_trial"),
-         ["sum([len(factor.levels) for factor in filter(lambda f: not(f.has_complex_window), self.act_design)])"],
+         ["sum([len(_b0.levels) for _b0 in [_b0 for _b0 in self.act_design if not(_b0.has_complex_window)]])"],
          "variables per trial = number of levels of the grid factors")
     f = ctx.fn("cross_block:MultiCrossBlockRepeat.grid_variables")
     fact(ctx, R, f, "grid_variables", Facts(f).returns(), ["self.trials_per_sample()*self.variables_per_trial()"], "grid = trials x variables per trial")
     f = ctx.fn("block:Block.variables_per_sample")
-    fact(ctx, R, f, "variables_per_sample", Facts(f).returns(), ["reduce(lambda sum,f: self.variables_for_factor(f) + sum, self.act_design, 0)"],
+    fact(ctx, R, f, "variables_per_sample", Facts(f).returns(), ["reduce(lambda _b0,_b1: _b0 + self.variables_for_factor(_b1), self.act_design, 0)"],
          "support = sum of variables_for_factor over act_design")
     f = ctx.fn("block:Block.variables_for_factor")
     fact(ctx, R, f, "variables_for_factor", Facts(f).returns(),
-         ["reduce(lambda sum,t: ite(f.applies_to_trial(1 + (-1 + t)//(self.sustain_count(f))), len(f.levels) + sum, sum), "
+         ["reduce(lambda _b0,_b1: ite(f.applies_to_trial(1 + (-1 + _b1)//(self.sustain_count(f))), _b0 + len(f.levels), _b0), "
           "range(1 + start, 1 + ite(end, end, self.trials_per_sample())), 0)"],
          "len(f.levels) variables per applicable trial (sustain-divided query) of the range")
     f = ctx.fn("block:Block._get_previous_trials_variable_count")
@@ -143,17 +143,17 @@ def check(ctx):
     f = ctx.fn("block:Block.build_backend_request")
     fact(ctx, R, f, "fresh start", Facts(f).assigns("fresh"), ["1 + self.variables_per_sample()"], "auxiliary variables start right above the layout")
     f = ctx.fn("level:get_all_levels")
-    fact(ctx, R, f, "get_all_levels", Facts(f).returns(), ["[(factor, level) for factor in design for level in factor.levels]"],
+    fact(ctx, R, f, "get_all_levels", Facts(f).returns(), ["[(_b0, _b1) for _b0 in design for _b1 in _b0.levels]"],
          "level order = factors in order, each factor's levels in order")
     f = ctx.fn("block:Block.__init__")
-    fact(ctx, R, f, "act_design", Facts(f).assigns("self.act_design"), ["list(filter(lambda f: not(self.factor_is_implied(f)), self.design))"],
+    fact(ctx, R, f, "act_design", Facts(f).assigns("self.act_design"), ["[_b0 for _b0 in self.design if not(self.factor_is_implied(_b0))]"],
          "act_design = design order minus implied factors")
 
     # ---------------------------------------------------------------- Consistency walks the same layout
     f = ctx.fn("constraint:Consistency.apply")
     F = Facts(f)
     fact(ctx, R, f, "Consistency order", F.iters(),
-         ["range(block.trials_per_sample())", "filter(lambda f: not(f.has_complex_window), block.act_design)", "filter(lambda f: f.has_complex_window, block.act_design)"],
+         ["range(block.trials_per_sample())", "[_b0 for _b0 in block.act_design if not(_b0.has_complex_window)]", "[_b0 for _b0 in block.act_design if _b0.has_complex_window]"],
          "trial by trial over the grid factors in act_design order, then the complex factors in act_design order")
     fact(ctx, R, f, "Consistency start", F.assigns("next_var"), ["1"], "first variable is 1")
     fact(ctx, R, f, "Consistency steps", F.augs("next_var"), ["+= len(f.levels)", "+= block.variables_for_factor(f)"],
@@ -161,9 +161,9 @@ def check(ctx):
     fact(ctx, R, f, "Consistency grid request", F.assigns("new_request"), ["LowLevelRequest('EQ', 1, list(range(next_var, len(f.levels) + next_var)))"],
          "exactly one level of a factor per trial")
     fact(ctx, R, f, "Consistency complex chunks", F.assigns("chunks"),
-         ["list(chunk_list(list(map(lambda n: n + next_var, range(block.variables_for_factor(f)))), len(f.levels)))"],
+         ["list(chunk_list([_b0 + next_var for _b0 in range(block.variables_for_factor(f))], len(f.levels)))"],
          "complex factor variables chunked by len(f.levels)")
-    ctx.check(F.augs("backend_request.ll_requests") == ["+= list(map(lambda v: LowLevelRequest('EQ', 1, v), " + F.assigns("chunks")[0] + "))"] if F.assigns("chunks") else False,
+    ctx.check(F.augs("backend_request.ll_requests") == ["+= [LowLevelRequest('EQ', 1, _b0) for _b0 in " + F.assigns("chunks")[0] + "]"] if F.assigns("chunks") else False,
               R, f, "Consistency complex request", "exactly one level per applicable trial of a complex factor", "Consistency's complex-factor requests changed")
     nest_ok = False
     outer = [s for s in f.node.body if isinstance(s, ast.For)]
@@ -176,7 +176,7 @@ def check(ctx):
     f = ctx.fn("block:Block.get_variable")
     fact(ctx, R, f, "get_variable", Facts(f).returns(), ["self._encode_variable(level[0], level[1], trial_number)"], "get_variable = _encode_variable")
     f = ctx.fn("block:Block.encode_combination")
-    fact(ctx, R, f, "encode_combination", Facts(f).returns(), ["tuple([self._encode_variable(f, l, trial) for (f, l) in combination.items()])"],
+    fact(ctx, R, f, "encode_combination", Facts(f).returns(), ["tuple([self._encode_variable(_b0, _b1, trial) for (_b0, _b1) in combination.items()])"],
          "a combination is the tuple of its members' variables at that trial")
 
     mod = sys.modules[__name__]
